@@ -131,10 +131,10 @@ PROPS = {
         "assumptions": ["radix digit parsing is num-bigint's (modelled as positional notation)", "literals the macro rejects at compile time cannot be in the grid (documented in the model, exercised by a scratch crate once)"],
     },
     "C03": {
-        "modules": ["Ark.Props.C03a", "Ark.Props.C03b"],
+        "modules": ["Ark.Props.C03a", "Ark.Props.C03b", "Ark.Props.C03c"],
         "rule": "one op line per point operation on a pair of representatives; distinct = distinct op line; non-trivial = not all coordinates in {0,1}",
         "exhaustive": ["all ordered pairs of representatives (several projective rescalings, all identity forms) on six SW curves over F_13, one over F_49, and TE curves over F_13 / F_127 (quick); more in thorough"],
-        "partial": ["twisted Edwards, incomplete addition law (d or a*d a square): that the prime-order subgroup avoids the exceptional pairs is not proved (needs associativity of the Edwards law); proved instead: exact algebraic characterisation of exceptional pairs (te_exceptional_partial, te_not_defined_iff) and correctness whenever the law is defined; the correspondence enumerates the subgroups of the toy incomplete curves exhaustively"],
+        "partial": ["twisted Edwards, incomplete addition law (d or a*d a square): associativity of the law (whenever the sums are defined) and the group structure on complete curves and on every subset closed under a defined law are proved (C03c), but that the prime-order subgroup of an INCOMPLETE curve avoids the exceptional pairs is not (it needs the projective closure with two addition laws); proved instead: exact algebraic characterisation of exceptional pairs (te_exceptional_partial, te_not_defined_iff); the correspondence enumerates the subgroups of the toy incomplete curves exhaustively"],
         "assumptions": ["characteristic != 2 (and the curve equation for the branches that need it) are hypotheses of the theorems", "configs overriding mul_by_a are assumed to compute a*e (checked by the correspondence op mulbya)"],
     },
     "C17": {
